@@ -446,6 +446,97 @@ def check(case):
 
 
 # --------------------------------------------------------------------------
+# stepwise: the same layerings applied one layer at a time through the API, every option
+# read back after EVERY layer ("replaced by the current value of the named option")
+# --------------------------------------------------------------------------
+def _compare_all(config, case, tag, detail):
+    vals, prov = M.expected(SCHEMA, case)
+    exp = dict(((o["section"], o["key"]), M.readback(SCHEMA, vals, (o["section"], o["key"]))) for o in OPTS)
+    bad = []
+    for o in OPTS:
+        idx = (o["section"], o["key"])
+        raw, err = call_real(lambda: config[o["section"]].data[o["key"]].value)
+        if err is not None:
+            bad.append((err.key, idx, None, None))
+            continue
+        if not _same(raw, vals[idx]):
+            bad.append(("wrong-value:%s:%s" % (o["type"], _winner(o, prov[idx])), idx, vals[idx], raw))
+            continue
+        val, err = call_real(lambda: config[o["section"]][o["key"]])
+        if err is not None:
+            bad.append(("readback-" + err.key, idx, exp[idx], err.message))
+        elif not _same(val, exp[idx]):
+            bad.append(("wrong-readback-after-earlier-read:%s" % o["type"] if tag != "defaults"
+                        else "wrong-readback:%s" % o["type"], idx, exp[idx], val))
+    if bad:
+        pick = next((b for b in bad if b[0] not in KNOWN), bad[0])
+        return fail(pick[0], dict(detail, after=tag, option="%s.%s" % pick[1], expected=repr(pick[2]),
+                                  observed=repr(pick[3]),
+                                  all_mismatches=[[b[0], "%s.%s" % b[1]] for b in bad][:10]))
+    return None
+
+
+def check_stepwise(case):
+    import argparse
+    import plasTeX.client as client
+    from plasTeX.Config import defaultConfig
+    try:
+        vals, prov = M.expected(SCHEMA, case)
+        argv = M.render_argv({"files": [], "argv": case["argv"], "file_pos": case.get("file_pos", "first")})
+        texts = [(f["name"], f.get("exists", True), M.render_ini(f)) for f in case.get("files", [])]
+    except M.ModelError as e:
+        return skip("model-domain:" + str(e)[:50])
+    feats, nontrivial = _features(case, vals, prov)
+    feats = sorted(feats)
+    detail = {"argv": argv, "files": dict((n, t) for n, e, t in texts if e)}
+
+    def build():
+        config = defaultConfig()
+        client.collect_renderer_config(config)
+        parser = argparse.ArgumentParser("plasTeX")
+        config.registerArgparse(parser)
+        parser.add_argument("file")
+        return config, parser
+    got, err = call_real(build)
+    if err is not None:
+        return fail(err.key, err.detail(), feats)
+    config, parser = got
+    r = _compare_all(config, {"files": [], "argv": []}, "defaults", detail)
+    if r is not None:
+        return Result_with(r, feats)
+    files = case.get("files", [])
+    for i, (name, exists, text) in enumerate(texts):
+        if exists:
+            with open(name, "w") as fh:
+                fh.write(text)
+        elif os.path.exists(name):
+            os.remove(name)
+        _, err = call_real(config.read, [name])
+        if err is not None:
+            return fail("stepwise-" + err.key, dict(err.detail(), **detail), feats)
+        r = _compare_all(config, {"files": files[:i + 1], "argv": []}, "file-%d" % (i + 1), detail)
+        if r is not None:
+            return Result_with(r, feats)
+    out, errs = io.StringIO(), io.StringIO()
+    try:
+        with contextlib.redirect_stdout(out), contextlib.redirect_stderr(errs):
+            data = vars(parser.parse_args(list(argv)))
+    except SystemExit:
+        raise RuntimeError("argparse rejected the command line: %s" % errs.getvalue()[-300:])
+    _, err = call_real(config.updateFromDict, data)
+    if err is not None:
+        return fail("stepwise-" + err.key, dict(err.detail(), **detail), feats)
+    r = _compare_all(config, case, "argv", detail)
+    if r is not None:
+        return Result_with(r, feats)
+    return ok(feats + ["stepwise-layers=%d" % (len(texts) + 2)], nontrivial)
+
+
+def Result_with(r, feats):
+    return fail(r.key, r.detail, feats)
+
+
+# --------------------------------------------------------------------------
 # exhaustive grid: option x {default, file, file2-over-file1, argv, file+argv} x samples
 # --------------------------------------------------------------------------
 def _samples_file(o):
@@ -562,4 +653,10 @@ STREAMS = [
     Stream("layering", "given", lambda tier: layering(), check,
            budget={"quick": 300, "thorough": 6000}, timeout=20.0, rule=RULE),
     Stream("grid", "enum", make_grid, check_grid, timeout=20.0, rule=RULE_GRID),
+    Stream("stepwise", "given", lambda tier: layering(), check_stepwise,
+           budget={"quick": 120, "thorough": 3000}, timeout=30.0,
+           rule=("the layerings of 'layering' applied one layer at a time through the API (defaultConfig + renderer "
+                 "sections, config.read(file) per file, updateFromDict(parse_args(argv))), with EVERY option's stored "
+                 "value and interpolated read-back compared with the model after EVERY layer, so that a read-back must "
+                 "follow later changes of the options it refers to. Non-trivial as in 'layering'.")),
 ]
